@@ -860,3 +860,47 @@ Example schedule_example :
   ev_get_value [102] (Some 2%Z) demo_ev = Err IndexError /\
   ev_get_value [102] None demo_ev = Ok 60%Z.
 Proof. vm_compute. repeat split. Qed.
+
+(* ------------------------------------------------------------------ guarded forms (audit follow-up) *)
+(* The model's [fires p e] is total; Python raises ZeroDivisionError for period 0.  The statements exported in
+   props/C17.v carry the guard 1 <= p explicitly. *)
+Section GuardedR.
+  Local Open Scope R_scope.
+
+  (* where the documented quotient is a genuine quotient: M_{t-p} <> 0 for relative, var_{t-p} > 0 for variance *)
+  Definition nz_guard (c : criterion) (prev : R * R) : Prop :=
+    match c with Relative => fst prev <> 0 | Absolute => True | Variance => 0 < snd prev end.
+
+  (* the documented rule written without any division *)
+  Definition should_stop_nodiv (hist : list (R * R)) (p : nat) (tol : R) (c : criterion) : Prop :=
+    (length hist >= p + 1)%nat /\
+    let cur := nth (length hist - 1) hist (0, 0) in
+    let prev := nth (length hist - 1 - p) hist (0, 0) in
+    match c with
+    | Relative => Rabs (fst prev - fst cur) < tol * Rabs (fst prev)
+    | Absolute => Rabs (fst prev - fst cur) < tol
+    | Variance => Rabs (fst prev - fst cur) < tol * sqrt (snd prev)
+    end.
+
+  (* under the guard, the executable rule decides the division-free documented rule; nothing is claimed
+     about M_{t-p} = 0 / variance 0 (there Coq's [/] is a totalised function; the check decides those
+     cases under IEEE semantics) *)
+  Theorem es_rule_guarded c p tol hist :
+    ((length hist >= p + 1)%nat -> nz_guard c (nth (length hist - 1 - p) hist (0, 0))) ->
+    (es_rule ROps c p tol hist = true <-> should_stop_nodiv hist p tol c).
+  Proof.
+    intros G. rewrite es_rule_iff_should_stop. unfold should_stop, should_stop_nodiv.
+    split; intros [Hl H]; (split; [exact Hl|]); specialize (G Hl); cbv zeta in *;
+      destruct (nth (length hist - 1 - p) hist (0, 0)) as [prev pvar];
+      destruct (nth (length hist - 1) hist (0, 0)) as [cur cvar]; destruct c; simpl in *.
+    - apply (relative_rule_no_division prev cur tol G). exact H.
+    - exact H.
+    - apply (variance_rule_no_division prev cur pvar tol G). exact H.
+    - apply (relative_rule_no_division prev cur tol G). exact H.
+    - exact H.
+    - apply (variance_rule_no_division prev cur pvar tol G). exact H.
+  Qed.
+
+  Example nz_guard_example : nz_guard Relative (5, 0) /\ nz_guard Variance (5, 2) /\ ~ nz_guard Relative (0, 1).
+  Proof. simpl. repeat split; try lra. Qed.
+End GuardedR.
